@@ -233,10 +233,11 @@ def judge(R, case, impl, mod, info_in, size, res, target, ms, tiny_ok=True):
     fr = [Fraction(r) for r in res]
     reg = input_regions(size, fr, target, ms)
     kg = KEYS_GUARD.get(_ck(size, res, target, ms))
-    if kg is not None and mod[0] == "ok" and kg == reg[F_DUP]:
-        R.count("keys_guard-vs-rational-region-mismatch")
-        if kg:
-            R.disagree("keys_guard holds although an axis was rounded up (guard vs Python region)", case, kg, reg[F_DUP])
+    if kg is not None and mod[0] == "ok":
+        R.count(f"keys_guard:{kg}:axis-rounded-up:{reg[F_DUP]}")
+        if not kg and not reg[F_DUP]:
+            # no axis ratio was rounded up, so the minimum resolution is finest * 2^level at every level
+            R.disagree("keys_guard fails although no axis ratio was rounded up", case, kg, reg[F_DUP])
     if impl[0] == "ok":
         for what, fid, detail in oracle(case, info_in, impl[1], reg, target, ms):
             inside = False
@@ -248,7 +249,7 @@ def judge(R, case, impl, mod, info_in, size, res, target, ms, tiny_ok=True):
                 kg = KEYS_GUARD.get(_ck(size, res, target, ms))
                 if kg is None:
                     kg = R.model.call("keys_guard", model_req(size, res, target, ms)[1]) == "true"
-                inside = (not kg) and reg[fid]
+                inside = not kg
             elif fid is not None:
                 inside = reg[fid]
             if inside:
